@@ -168,6 +168,11 @@ func genModeOp(u universe, m *mTracker, c string, uniq *int, choose func(int) in
 	if modes.Len() == 0 {
 		modes.WriteString("+n")
 	}
+	if len(args) > 0 && choose(8) == 0 {
+		// the line is short of arguments: the letters that find none left are
+		// skipped, every other letter of the string still takes effect
+		args = args[:choose(len(args))]
+	}
 	return tOp{"ChannelModes", append([]string{c, modes.String()}, args...)}
 }
 
